@@ -633,6 +633,16 @@ theorem stream_write_roundtrip (cap : Nat) (pad : Buf) (fuel : Nat) (bytes : Buf
 example : streamToBlocks 4 [9, 9, 9, 9] 5 [1, 2, 3, 4, 5, 6] = [⟨[1, 2, 3, 4], 4⟩, ⟨[5, 6, 9, 9, 9, 9], 2⟩] := by decide
 example : streamToBlocks 2 [9, 9] 5 [1, 2, 3, 4] = [⟨[1, 2], 2⟩, ⟨[3, 4], 2⟩, ⟨[9, 9], 0⟩] := by decide
 
+/-- **pwrite_roundtrip**: `PWrite` (positional writes at the running offset, then truncation)
+leaves exactly the valid bytes of the blocks in the file, whatever the file held before — the same
+content `WriteAndRecycle` produces on an empty file. -/
+theorem pwrite_roundtrip (file : Buf) (blocks : List Block) :
+    pwriteRun file blocks = (blocks.map (fun b => b.mem.take b.valid)).flatten ∧
+    pwriteRun file blocks = writeAndRecycle [] blocks := by
+  have h := pwrite_fold blocks file 0 [] (by simp) rfl
+  simp only [List.nil_append] at h
+  exact ⟨h, by rw [writeAndRecycle_eq, List.nil_append]; exact h⟩
+
 /-- **spill_records_roundtrip** (connection to `storeRuns_roundtrip`): runs of `s`-byte records
 written as bytes, logged in bytes, read back at the logged offsets and cut into records are the
 runs the record-level model delivers — the non-empty runs, unchanged. -/
